@@ -76,6 +76,26 @@ func frPayload(op frOp, lg int) []byte {
 	return d
 }
 
+var frExtProbe = -1
+
+// frExt: does the storage package have fixes/C04-never-cut-inside-index-block.patch?
+func frExt() bool {
+	if frExtProbe < 0 {
+		l := storage.NewPartitionLog("probe", "t", 0, 0, storage.NewMemoryS3Client(), nil, storage.PartitionLogConfig{Buffer: storage.WriteBufferConfig{MaxBytes: 1 << 30}, Segment: storage.SegmentWriterConfig{IndexIntervalMessages: 3}}, nil, nil, nil)
+		for i := 0; i < 4; i++ {
+			b, _ := storage.NewRecordBatchFromBytes(frPayload(frOp{Len: 61, Count: 1}, 0))
+			_, _ = l.AppendBatch(context.Background(), b)
+		}
+		_ = l.Flush(context.Background())
+		d, _ := l.Read(context.Background(), 1, 10)
+		frExtProbe = 0
+		if len(d) > 10 {
+			frExtProbe = 1
+		}
+	}
+	return frExtProbe == 1
+}
+
 type frBatch struct {
 	base, last int64
 	bytes      []byte
@@ -364,6 +384,9 @@ func frFetch(cs frCase, op frOp, res *frResult, h *handler, s3 *storage.MemoryS3
 									key = "index-lookup-not-floor"
 								case floor >= 0 && entries[floor].Offset == live[i0].base && entries[floor].Offset < live[idx].base && int(p.Max) <= dist:
 									key = "sparse-index-entry-before-offset+maxbytes-le-distance"
+									if frExt() {
+										key = "sparse-index-no-progress-despite-cap-extension"
+									}
 								}
 							}
 						}
@@ -514,7 +537,7 @@ func frTest(t *testing.T, prop string) {
 			}
 			rep.Fail(f.oracle, key, what, shr)
 		}
-		coq = append(coq, fmt.Sprintf("mkFCase %s %s %s", cqZ(int64(cs.Interval)), cqBool(cs.Sync), cqList(res.steps)))
+		coq = append(coq, fmt.Sprintf("mkFCase %s %s %s %s", cqZ(int64(cs.Interval)), cqBool(cs.Sync), cqBool(frExt()), cqList(res.steps)))
 		jsons = append(jsons, string(canon))
 	}
 	if rc := vReplayCase(); rc != nil {
